@@ -36,6 +36,8 @@ def run(ctx, rep):
     c03.check_who_frees(ctx, rep, 'R04.8')
     rep.rule('R04.9', 'nothing but the returned result outlives the run: no static item can hold a value (it would be released under the static, or twice by two callers)')
     c03.check_no_static_values(ctx, rep, 'R04.9')
+    rep.rule('R04.11', 'a collection started by a return sees the frame of the returning function no more: the frame is popped (its slots leave the operand stack) before the collector runs, so what only the dead frame held is reclaimed by this collection')
+    check_collect_after_popframe(ctx, rep, 'R04.11')
     rep.rule('R04.10', 'handing the result over terminates and visits each object once: untrace recurses into the elements only after removing the object it was given from the managed list')
     c03.check_recursion_removes(ctx, rep, 'R04.10')
     check_box_release(ctx, rep, 'R04.6')
@@ -260,6 +262,28 @@ def _fresh_guarded(fn, b):
     return False
 
 
+def check_collect_after_popframe(ctx, rep, rule):
+    """in every arm of the dispatch loop that both leaves a function (popframe) and runs the collector, popframe comes first on
+    every path: the operand stack handed over as a root no longer contains the arguments, locals and temporaries of the function
+    that has just ended"""
+    from rules import vmx
+    v = vmx.vmx(ctx)
+    n = 0
+    for op, arm in sorted(v['arms'].items()):
+        for r in arm['paths']:
+            p = r.get('path')
+            if p is None:
+                continue
+            names = [c[1] for c in p.calls]
+            if GCN + 'run' not in names or 'vm::VM::popframe' not in names:
+                continue
+            n += 1
+            ok = names.index('vm::VM::popframe') < names.index(GCN + 'run')
+            rep.ob(ok, rule, v['fn'].path, 'OpCode::%s collects after leaving the frame' % op,
+                   'popframe() runs before GC::run on this path' if ok else 'the collector runs while the frame of the returning function is still on the stack: everything only that frame held survives this collection', 'src/vm.rs')
+    rep.count('return_collections', n)
+
+
 def check_free_recursive(ctx, rep, rule):
     """Object::free_recursive is how the caller of eval releases a result: `without anything remaining or being released twice`.
     Read from its MIR (helpers spliced in):
@@ -336,6 +360,26 @@ def check_free_recursive(ctx, rep, rule):
                     src = 'drawn from a local collection'
                     why = 'every insertion into that collection runs after a set answered `new`' if ok else \
                         'the collection it is drawn from also receives objects without a first-time test (%d of %d insertions)' % (len(ungu), len(adds[drawn]))
+                    # ... and what the collection is BUILT with (`vec![self]`) went in without a test: when objects are tested as they
+                    # are queued (not as they are taken out), the first one has to be entered in the set by hand, or it is met - and
+                    # freed - again through an array that contains it
+                    built_with = []
+                    if ok and drawn[0] == 'local':
+                        ds_ = fn.defs().get(drawn[1], [])
+                        built_with = [d_ for d_ in ds_ if d_[0] == 'call' and not callee_name(fn.term(d_[1])).endswith(('::new', '::with_capacity', '::default'))
+                                      and fn.term(d_[1])['args']]
+                    elif ok and drawn[0] == 'call':
+                        built_with = [drawn] if not str(drawn[1]).endswith(('::new', '::with_capacity', '::default')) else []
+                    if ok and (drawn[0] in ('local', 'call')):
+                        if built_with:
+                            reg = False
+                            for bb, tt in fn.calls():
+                                if callee_name(tt).endswith(SET_INSERT) and len(tt['args']) == 2 and 'as_ptr' in str(sym(fn, tt['args'][1])) and "('param', 1)" in str(sym(fn, tt['args'][1])) \
+                                        and fn.dominates(bb, b):
+                                    reg = True
+                            if not reg:
+                                ok = False
+                                why = 'objects are tested when they are queued, but the collection starts out holding the object itself, which no test has seen: an array that contains itself is released twice'
                 else:
                     src = 'drawn from %s' % (drawn,)
                     why = 'no first-time test protects this release'
